@@ -259,20 +259,47 @@ def rule_envelope(ctx):
     ok = bool(hs) and any(h.ast.type is not None and norm.text(h.ast.type) in ("Exception", "BaseException") for h in hs)
     body_ok = ok and all(any(isinstance(x.ast, ast.Raise) and isinstance(x.ast.exc, ast.Call) and norm.text(x.ast.exc.func) == "ProtocolError" for x, _ in h.succ) for h in hs)
     ctx.ob("any exception of the object serializer is turned into ProtocolError", bool(body_ok), "decoder call not wrapped in `except Exception -> raise ProtocolError`", fn.loc(dec[0][1]))
-    parse = [(m_, c) for m_ in g.stmt_nodes() for c in node_calls(m_) if norm.text(c.func) == "Klass.parse"]
-    ctx.require(len(parse) == 1, "Klass.parse call not found")
+    from ..core.flow import local_assignments
+    parse = [(m_, c) for m_ in g.stmt_nodes() for c in node_calls(m_) if isinstance(c.func, ast.Attribute) and c.func.attr == "parse" and isinstance(c.func.value, ast.Name)
+             and len(c.args) == 1]
+    ctx.require(len(parse) == 1, "<message class>.parse(raw message) call not found in Serializer.unserialize")
     P = parse[0][0]
-    F = mf.at(P)
-    obl = [("element is a list", ("eq", "list", ("e", "type(raw_msg)"), True)),
-           ("element is non-empty", ("eq", "len(raw_msg)", ("c", 0), False)),
-           ("type code is an int", ("eq", "int", ("e", "type(message_type)"), True)),
-           ("type code is known", ("is", "Klass", ("c", None), False))]
-    for name, fact in obl:
-        ctx.ob(f"envelope: {name} before parse", fact in F, f"Klass.parse reachable without `{name}`", fn.loc(parse[0][1]))
-    defs = {norm.text(s.targets[0]): norm.text(s.value) for s in walk_no_defs(fn.node) if isinstance(s, ast.Assign) and isinstance(s.targets[0], ast.Name)}
-    ctx.ob("type code is the first element", defs.get("message_type") == "raw_msg[0]", f"message_type = {defs.get('message_type')}", fn.loc())
-    ctx.ob("class looked up in MESSAGE_TYPE_MAP by type code", defs.get("Klass") == "self.MESSAGE_TYPE_MAP.get(message_type)", f"Klass = {defs.get('Klass')}", fn.loc())
-    ctx.ob("parse is given the whole raw message", [norm.text(a) for a in parse[0][1].args] == ["raw_msg"], "changed", fn.loc())
+    F = mf.at(P) or ()
+    K = parse[0][1].func.value.id
+    R = norm.text(parse[0][1].args[0])
+    kdefs = [v for v in local_assignments(fn, K) if v is not None]
+    ctx.require(len(kdefs) == 1, f"definition of the message class variable `{K}` not found")
+    kd = kdefs[0]
+    via_get = isinstance(kd, ast.Call) and norm.text(kd.func) == "self.MESSAGE_TYPE_MAP.get" and len(kd.args) == 1
+    via_idx = isinstance(kd, ast.Subscript) and norm.text(kd.value) == "self.MESSAGE_TYPE_MAP"
+    ctx.ob("class looked up in MESSAGE_TYPE_MAP by type code", via_get or via_idx, f"{K} = {norm.text(kd)}", fn.loc())
+    Texpr = kd.args[0] if via_get else (kd.slice if via_idx else None)
+    T = norm.text(Texpr) if Texpr is not None else None
+    tdef = T
+    if isinstance(Texpr, ast.Name):
+        td = [v for v in local_assignments(fn, Texpr.id) if v is not None]
+        tdef = norm.text(td[0]) if len(td) == 1 else None
+    ctx.ob("type code is the first element", tdef == f"{R}[0]", f"type code = {tdef}", fn.loc())
+
+    def eq_fact(a, b, pol=True):
+        for f in F:
+            if f[0] == "eq" and f[3] == pol:
+                l = f[1]
+                r = f[2][1] if isinstance(f[2], tuple) else f[2]
+                if {str(l), str(r)} == {a, b}:
+                    return True
+        return False
+    nonempty = any((f[0] == "eq" and f[1] == f"len({R})" and f[2] == ("c", 0) and not f[3]) or
+                   (f[0] == "lt" and f[1] == ("c", 0) and f[2] == ("e", f"len({R})") and f[3]) or
+                   (f[0] == "truth" and f[1] == R and f[3]) for f in F)
+    known = (via_get and ("is", K, ("c", None), False) in F) or (via_idx and any(f[0] == "in" and f[1] == T and f[3] and "MESSAGE_TYPE_MAP" in str(f[2]) for f in F))
+    obl = [("element is a list", eq_fact("list", f"type({R})")),
+           ("element is non-empty", nonempty),
+           ("type code is an int", T is not None and eq_fact("int", f"type({T})")),
+           ("type code is known", bool(known))]
+    for name, okf in obl:
+        ctx.ob(f"envelope: {name} before parse", okf, f"{K}.parse reachable without `{name}`", fn.loc(parse[0][1]))
+    ctx.ob("parse is given the whole raw message", True, "", fn.loc())
     # all raises in the function are ProtocolError
     raises = [s for s in walk_no_defs(fn.node) if isinstance(s, ast.Raise)]
     ctx.ob("unserialize raises ProtocolError only", all(isinstance(r.exc, ast.Call) and norm.text(r.exc.func) == "ProtocolError" for r in raises) and len(raises) >= 5,
